@@ -115,6 +115,38 @@ def extended(t):
     return out
 
 
+def shared_variants(pat):
+    """Targets that SHARE objects with the pattern: the pattern itself, and the pattern with exactly one variable occurrence replaced (every other subtree is the
+    identical object, as after an IdentityMapper or substitution pass)."""
+    import dataclasses
+    import pymbolic.primitives as p
+
+    def occ(e):
+        """(rebuild, leaf) for every candidate-variable occurrence in e."""
+        if isinstance(e, p.Variable):
+            if e.name in ("a", "b", "c"):
+                yield (lambda new: new), e
+            return
+        if isinstance(e, p.Expression) and dataclasses.is_dataclass(e):
+            for fld in dataclasses.fields(e):
+                v = getattr(e, fld.name)
+                if isinstance(v, p.Expression):
+                    for rb, leaf in occ(v):
+                        yield (lambda new, rb=rb, fld=fld: dataclasses.replace(e, **{fld.name: rb(new)})), leaf
+                elif isinstance(v, tuple):
+                    for i, c in enumerate(v):
+                        if isinstance(c, p.Expression):
+                            for rb, leaf in occ(c):
+                                yield (lambda new, rb=rb, fld=fld, i=i, v=v: dataclasses.replace(e, **{fld.name: v[:i] + (rb(new),) + v[i + 1:]})), leaf
+    out = [pat]
+    news = [p.Variable("a"), p.Variable("b"), p.Variable("c"), p.Variable("x"), p.Sum((p.Variable("a"), 1))]
+    for rb, leaf in occ(pat):
+        for new in news:
+            if new != leaf:
+                out.append(rb(new))
+    return out
+
+
 def target_atoms():
     import pymbolic.primitives as p
     x, y, z = (p.Variable(n) for n in "xyz")
@@ -158,6 +190,8 @@ def bounded(tier, seed, procs):
         # bare candidate operand of that node can absorb the extra
         for t in [t for t, _ in inst_targets[id(pat)]][:8]:
             targets += extended(t)[:6]
+        # targets sharing objects with the pattern
+        targets += shared_variants(pat)[:40]
         # injective renamings
         ren = instantiate(pat, {"a": p.Variable("u"), "b": p.Variable("v"), "c": p.Variable("w")})
         targets.append(ren)
@@ -190,7 +224,7 @@ def bounded(tier, seed, procs):
                         if ac_norm(inst) != ac_norm(t):
                             why = f"record {rec!r}: instantiation {inst!r} is not the target"
                             break
-                    if why is None and t is ren and cands == vs and not recs:
+                    if why is None and (t is ren or t is pat) and cands == vs and not recs:
                         why = "target is an injective renaming of the pattern but no record was returned"
                 if why:
                     b.fail(Failure("unifier", f"pattern={pat!r} target={t!r} candidates={cands} why={why}", dict(kind="unify", pattern=trees.src(pat), target=trees.src(t), cands=cands),
